@@ -39,6 +39,13 @@ def gen_config(rnd, S, opts=None):
         S["_trade_handler_acts"] = True  # the strategy's TRADE handler sends follow-up orders and cancels other open orders while the matching pass runs
     if opts.get("pre_open_orders"):
         S["_pre_open"] = True            # a handler subscribed to EVENT.BEFORE_TRADING (GLOBAL phase: the order APIs are allowed) trades before the open
+    if opts.get("off_grid"):
+        S["_off_grid"] = True            # limit prices between two ticks; with base.round_price they are moved DOWN to the tick grid
+        base_extra_round = rnd.random() < 0.7
+    else:
+        base_extra_round = False
+    if opts.get("fut_plan"):
+        S["_fut_plan"] = opts["fut_plan"]
     if opts.get("otp"):
         S["_otp"] = True                 # order_target_portfolio calls with per-instrument limit prices
     if opts.get("frac_fut"):
@@ -53,6 +60,8 @@ def gen_config(rnd, S, opts=None):
     cost = {"stock_commission_multiplier": rnd.choice([1, 1, 0.5, 2]), "cn_stock_min_commission": rnd.choice([5, 5, 0, 1]),
             "tax_multiplier": rnd.choice([1, 1, 0, 2]), "futures_commission_multiplier": rnd.choice([1, 1, 2])}
     base_extra = {"margin_multiplier": rnd.choice([1, 1, 1.5]), "forced_liquidation": rnd.random() < 0.8}
+    if base_extra_round:
+        base_extra["round_price"] = True
     if opts.get("p_init_pos") and rnd.random() < opts["p_init_pos"]:
         # the run starts from configured holdings (base.init_positions): instruments that trade from the first day on
         ip = []
@@ -447,10 +456,14 @@ def run_trading(rnd, S, cfgk, intensity=1.0, script=None, analyser=False, ids=No
             plan["fut"], plan["cash_edge_day"] = (), 0      # a resumable (stateless) strategy has no multi-day plan
         if plan["fut"] is None:
             plan["fut"] = (srnd.choice(futs), srnd.choice(["long", "short"])) if (futs and "FUTURE" in context.portfolio.accounts and srnd.random() < 0.6) else ()
+            if S.get("_fut_plan") and futs and "FUTURE" in context.portfolio.accounts:
+                plan["fut"] = (futs[0], srnd.choice(["long", "short"]))
             plan["generic"] = bool(S.get("_plan_generic_close")) and srnd.random() < 0.35
             plan["ct_twice"] = (not plan["generic"]) and srnd.random() < 0.4
             plan["typed_double"] = bool(S.get("_plan_generic_close")) and (not plan["generic"]) and (not plan["ct_twice"]) and srnd.random() < 0.6
             plan["two_closes"] = (not plan["generic"]) and (not plan["ct_twice"]) and (not plan["typed_double"]) and srnd.random() < 0.5
+            if S.get("_fut_plan") == "split_close":
+                plan["generic"] = plan["ct_twice"] = plan["typed_double"] = plan["two_closes"] = False      # directed: the split close whose first part is refused
             plan["cash_edge_day"] = srnd.randrange(1, 5) if (stocks and "STOCK" in context.portfolio.accounts and srnd.random() < 0.5) else 0
         if plan["fut"]:
             oid, side = plan["fut"]
@@ -497,6 +510,36 @@ def run_trading(rnd, S, cfgk, intensity=1.0, script=None, analyser=False, ids=No
                 q = int(cash / (unit * mm_)) + 1
                 return [api.buy_open(oid, q)]
             out.append(f6)
+        if futs and "FUTURE" in context.portfolio.accounts and day == 4 and reseed_key is None:
+            # a MARKET opening order whose margin the available cash covers but whose margin + estimated fee it does not: must be refused.
+            # Two calls: a withdrawal that leaves margin + half the fee, then the order.
+            edge = {}
+
+            def f6w(call, before, oid=futs[-1]):
+                frec = next(x for x in S["futures"] if x["id"] == oid)
+                price = env.get_last_price(oid)
+                cash = context.portfolio.accounts["FUTURE"].cash
+                q = 2
+                info = frec["info"]
+                cm = cfgk["cost"].get("futures_commission_multiplier", 1)
+                fee = (price * frec["mult"] * q * info["open_commission_ratio"] if info["commission_type"] == "by_money" else q * info["open_commission_ratio"]) * cm
+                target = price * frec["mult"] * info["margin_rate"] * mm_ * q + 0.5 * fee
+                if not (price == price and price > 0 and fee > 0.02 and cash > target + 1):
+                    call.update(api="plan_future_fee_edge_skipped", args=(oid,))
+                    return []
+                amt = round(cash - target, 2)
+                call.update(api="withdraw", args=("FUTURE", amt, 0))
+                api.withdraw("FUTURE", amt)
+                edge["go"] = (oid, q)
+                return []
+
+            def f6c(call, before):
+                call.update(api="plan_future_fee_edge", args=edge.get("go", ()))
+                if not edge.get("go"):
+                    return []
+                return [api.buy_open(edge["go"][0], edge["go"][1])]
+            out.append(f6w)
+            out.append(f6c)
         if plan["cash_edge_day"] and day == plan["cash_edge_day"]:
             def f3(call, before):
                 # a resting limit buy reserves about half of the available cash; a second purchase of about 70% of it must be refused
@@ -762,7 +805,7 @@ def run_trading(rnd, S, cfgk, intensity=1.0, script=None, analyser=False, ids=No
                     price = env.get_last_price(oid)
                     style = None
                     if srnd.random() < 0.4 and price == price and price > 0:
-                        style = LimitOrder(round(price * srnd.choice([0.97, 0.99, 1.0, 1.0, 1.01, 1.03]), 2))
+                        style = LimitOrder(round(price * srnd.choice([0.97, 0.99, 1.0, 1.0, 1.01, 1.03]), 2) + (srnd.choice([0.0, 0.004, 0.006, 0.0099]) if S.get("_off_grid") else 0))
                     pos = before.get("STOCK", {"holdings": []})
                     held = next((h["long"]["qty"] for h in pos["holdings"] if h["id"] == oid), 0)
                     k = srnd.random()
@@ -804,7 +847,7 @@ def run_trading(rnd, S, cfgk, intensity=1.0, script=None, analyser=False, ids=No
                     price = env.get_last_price(oid)
                     style = None
                     if srnd.random() < 0.4 and price == price and price > 0:
-                        style = LimitOrder(float(round(price * srnd.choice([0.98, 1.0, 1.0, 1.02]))))
+                        style = LimitOrder(float(round(price * srnd.choice([0.98, 1.0, 1.0, 1.02]))) + (srnd.choice([0.0, 0.4, 0.6, 0.15]) if S.get("_off_grid") else 0))
                     k = srnd.random()
                     if k < 0.8:
                         fn = srnd.choice(["buy_open", "sell_open", "buy_close", "sell_close"])
